@@ -692,7 +692,7 @@ def c18_shards(tier, seed):
 
 unit("C18", "Concurrent mark/log/pin state changes succeed exactly once",
      rule="204 targets: MarkState::test_and_mark, ImmixSpace::attempt_mark, MarkCompactSpace::test_and_mark/test_and_clear_mark, LargeObjectSpace::test_and_mark (full and nursery, both mark states), ObjectBarrier::log_object through the public "
-          "barrier entry points, pin_object/unpin_object, and a raw load+compare_exchange retry loop on run-time specs of every width; placements: side specs with the racing objects at all 8 (4) positions of a metadata byte and 10 header bindings "
+          "barrier entry points, pin_object/unpin_object, CompressorSpace::test_and_mark (fetch_update on the 1-bit-per-word mark bitmap: 2-8 racers walk 512 adjacent words in different orders, so every object and every neighbouring bit of its byte is contended), and a raw load+compare_exchange retry loop on run-time specs of every width; placements: side specs with the racing objects at all 8 (4) positions of a metadata byte and 10 header bindings "
           "with mark/pin/log at every bit of a shared header byte, LOS bits at every legal offset, negative offsets; (a) 2/3/4/8 racers on one object, (b) racers PLUS neighbour threads that each own another field of the same metadata byte and keep changing it; "
           "case pin-neighbour: only real transition functions as neighbours (pin/unpin of the adjacent object, mark and log of the same object); ~1M raced objects per quick run; distinct = (target, placement, #racers, neighbour kind, outcome)",
      technique="exactly-once checker on the return values of real racing threads + neighbour-ownership check (a field only its owner changes must never be seen changed by someone else)",
@@ -700,7 +700,7 @@ unit("C18", "Concurrent mark/log/pin state changes succeed exactly once",
      note="Interleavings = what up to 8 threads on 16 cores produce in ~1M races; not exhaustive.",
      design_ref="2/C18", shards=c18_shards, parallel=2,
      floors={"quick": {"objects_raced_a_racers_only": 250000, "objects_raced_b_with_neighbours": 230000, "neighbour_field_changes_during_races": 2000000, "transitions_won_by_another_racer": 200000,
-                       "targets": 204, "selftest_mutants_caught": 7}})
+                       "targets": 204, "selftest_mutants_caught": 7, "compressor_mark_objects_raced": 50000, "compressor_mark_attempts_lost": 50000}})
 
 unit("C24", "Side-metadata tables in use by one configuration never alias",
      rule="11 plans x 5 compiled VM metadata declarations (all in header; all bits on side in two declaration orders; two mixed placements) = 55 real plan instances (one child process each): every space's SideMetadataContext is exported through a hook, "
